@@ -1,5 +1,6 @@
 //! Command-line checks: cases, the process driver for `simcli` (the real `main()` inside a
 //! simulated execution), output parsing and the fault-injecting reader.
+pub mod structure;
 pub mod write;
 
 use crate::common::{cores_from, cores_json, Method};
@@ -52,10 +53,13 @@ impl Route {
             1 => Some("auto".to_string()),
             _ => Some(own),
         };
-        let ext = match r.below(4) {
+        let explicit = flag.as_deref() == Some(fmt.name());
+        let ext = match r.below(5) {
             0 => if fmt == Format::Json { "json" } else { "efg" }.to_string(),
             1 => "txt".to_string(),
             2 => "game".to_string(),
+            // an explicit --input-format wins over a misleading extension
+            3 if explicit => if fmt == Format::Json { "efg" } else { "json" }.to_string(),
             _ => String::new(),
         };
         let out_file = r.coin(0.3);
